@@ -585,8 +585,9 @@ class RunKind(Kind):
             'frames None/Ellipsis/slice with step/range/index list and array with repeats, chains of 0-3 non-commuting row-wise '
             'preprocesses, 1-3 successive run() calls, float32/float64, attacks with and without convergence_step (step <,=,> bs, dividing N or '
             'not, > N, derived batch size not dividing the step with N a multiple of the step), container histories (the same Container '
-            'used again by the same or another analysis object after preprocesses / frame were re-assigned or mutated in place); every update() logged and compared in Coq with the slices of the '
-            'SPEC rows; results/scores compared with a one-shot update of a fresh distinguisher; non-trivial = at least two batches in '
+            'used again by the same or another analysis object after preprocesses / frame were re-assigned or mutated in place); every update() logged; check_fn (property level): rows fed = SPEC '
+            'rows in order, no empty batch, results/scores = one-shot update of a fresh distinguisher / discriminant; corr_fn (correspondence '
+            'level): exact batch boundaries = slices, batch size = batch_size_rule; non-trivial = at least two batches in '
             'some run')
 
     def gen(self, rng, tier):
